@@ -97,12 +97,22 @@ def _new_wrapper(r, q, base_functions):
 def run_property(prop, tier, seed, root=None, write_evidence=True, quiet=False, selftest=True):
     r = Run(prop, tier, seed, root)
     try:
-        r.mod.run(r)
-        if tier == "thorough" and hasattr(r.mod, "run_thorough"):
-            r.mod.run_thorough(r)
-        if not os.environ.get("PRSA_NO_DEPS") and not getattr(r.mod, "NO_DEPENDENCY_CLOSURE", False):
-            from .deps import run_dependencies
-            run_dependencies(r)
+        try:
+            r.mod.run(r)
+            if tier == "thorough" and hasattr(r.mod, "run_thorough"):
+                r.mod.run_thorough(r)
+        finally:
+            # the dependency closure runs whatever became of the property's own rules (a lint in a callee is a finding of its own); if it
+            # stops on something it cannot read and the own rules had stopped before, the first stop is the one reported
+            if not os.environ.get("PRSA_NO_DEPS") and not getattr(r.mod, "NO_DEPENDENCY_CLOSURE", False) and r.rep.functions:
+                import sys as _sys
+                pending = _sys.exc_info()[1]
+                from .deps import run_dependencies
+                try:
+                    run_dependencies(r)
+                except AnalysisBroken:
+                    if pending is None:
+                        raise
         demote_rewritten(r)
     except AnalysisBroken as e:
         demote_rewritten(r)
